@@ -219,7 +219,8 @@ def analyse_map(fx, fn_path, group_ty, n_params, a0, rep, label):
         violations.append(('TS', 'unmodelled-call', 'call to %s touches a map intermediate; its effect on the stage word is not modelled' % target, where))
         return False
 
-    I = exp.Interp(fx, 'none', extra_transfer=transfer, max_paths=32)
+    I = exp.Interp(fx, 'none', extra_transfer=transfer, max_paths=32, inline=lambda q: INL.is_private_helper(fx, q))
+    I.fork_inlined = True
     I.body_override = {fn_path: body}
     args = [('byref', ('input', i + 1)) for i in range(n_params)]
     try:
